@@ -119,6 +119,9 @@ func genSeqPlan(r *rand.Rand, focus string) *ProxyPlan {
 	if r.IntN(5) == 0 {
 		res.ETag = "weak"
 	}
+	if r.IntN(4) == 0 {
+		res.DateSkewS = []int{60, 3600, 5, -30}[r.IntN(4)] // the response was generated a while ago (or by a clock that is off)
+	}
 	// estimate of the lifetime, used only to place requests around it
 	L := int64(maxAge) * 1000
 	if p.ForceDef || len(res.CC) == 0 {
